@@ -50,12 +50,12 @@ Lemma mapM_evaluate cfg st effs :
              /\ forall e v, In (e, v) (combine effs vs) -> neff_value st e = Ok v.
 Proof.
   induction effs as [|e r IH]; intros Hd.
-  - exists []. repeat split; [reflexivity | intros e v []].
+  - exists []. split; [reflexivity|]. split; [reflexivity|]. intros e v [].
   - destruct (Hd e (or_introl eq_refl)) as [v Hv].
     destruct IH as (vs & Hm & Hl & Hin); [intros e' He'; apply Hd; right; exact He'|].
     exists (spec_assign (ne_asg e) (val_of st (neff_key e)) v :: vs).
     cbn [map mapM combine List.length]. rewrite evaluate_neff. unfold neff_value at 1. rewrite Hv. cbn [bind].
-    rewrite Hm. cbn [bind fst snd]. repeat split; [reflexivity | now rewrite Hl |].
+    rewrite Hm. cbn [bind fst snd]. split; [reflexivity|]. split; [now rewrite Hl|].
     intros e' v' [H|H].
     + inversion H; subst. unfold neff_value. rewrite Hv. reflexivity.
     + exact (Hin _ _ H).
@@ -68,7 +68,7 @@ Lemma fold_write_other kvs cur k :
   ~ In k (map fst kvs) -> val_of (fold_left write_back (map kv_res kvs) cur) k = val_of cur k.
 Proof.
   revert cur. induction kvs as [|[k0 v0] r IH]; intros cur Hn; [reflexivity|].
-  cbn [map fold_left kv_res fst snd]. rewrite IH.
+  cbn [map fold_left]. change (kv_res (k0, v0)) with (EvAssign k0 v0). rewrite IH.
   - rewrite C12_assign_frame_lemma. destruct (String.eqb k k0) eqn:E; [|reflexivity].
     apply String.eqb_eq in E. subst. exfalso. apply Hn. left. reflexivity.
   - intros H. apply Hn. right. exact H.
@@ -79,7 +79,7 @@ Lemma fold_write_in kvs cur k v :
 Proof.
   revert cur. induction kvs as [|[k0 v0] r IH]; intros cur Hnd Hin; [destruct Hin|].
   cbn [map fst] in Hnd. inversion Hnd as [|? ? Hnot Hnd']; subst.
-  cbn [map fold_left kv_res fst snd]. destruct Hin as [H|H].
+  cbn [map fold_left]. change (kv_res (k0, v0)) with (EvAssign k0 v0). destruct Hin as [H|H].
   - inversion H; subst. rewrite (fold_write_other r _ k Hnot), C12_assign_frame_lemma, String.eqb_refl. reflexivity.
   - exact (IH _ Hnd' H).
 Qed.
@@ -141,7 +141,7 @@ Proof.
   - destruct (find_eff_in _ _ _ Hf) as [Hin Hk].
     destruct (in_combine_of effs vs e Hl Hin) as [v Hc]. rewrite (Hv _ _ Hc).
     apply fold_write_in; [rewrite Hkeys; exact Hnd|].
-    unfold kvs. apply in_map_iff. exists (e, v). split; [cbn; rewrite Hk; reflexivity | exact Hc].
+    unfold kvs. apply in_map_iff. exists (e, v). split; [cbn [fst snd]; rewrite Hk; reflexivity | exact Hc].
   - apply fold_write_other. rewrite Hkeys. exact (find_eff_none _ _ Hf).
 Qed.
 
@@ -163,11 +163,11 @@ Proof.
     assert (Hin' : In e effs') by (eapply Permutation_in; eassumption).
     f_equal. clear H1 H2 Hp Hnd Hi.
     induction effs' as [|x r IH]; [destruct Hin'|].
-    cbn [map] in Hnd'. inversion Hnd' as [|? ? Hnot Hr]; subst.
+    cbn [map] in Hnd'. apply NoDup_cons_iff in Hnd' as [Hnot Hr].
     destruct Hin' as [->|Hin']; destruct Hi' as [->|Hi'']; try reflexivity.
     + exfalso. apply Hnot. rewrite Hk, <- Hk'. apply in_map. exact Hi''.
     + exfalso. apply Hnot. rewrite Hk', <- Hk. apply in_map. exact Hin'.
-    + exact (IH Hr Hin' Hi'').
+    + exact (IH Hr Hi'' Hin').
   - exfalso. apply (find_eff_none _ _ H2). destruct (find_eff_in _ _ _ H1) as [Hi Hk].
     rewrite <- Hk. apply in_map. eapply Permutation_in; eassumption.
   - exfalso. apply (find_eff_none _ _ H1). destruct (find_eff_in _ _ _ H2) as [Hi Hk].
@@ -216,7 +216,7 @@ Qed.
 (* storing as it goes (each effect reading the state the previous one left) is NOT what the model does: it would
    give y = 21 *)
 Example sequential_differs :
-  (do s1 <- apply_effects (cfg_fixed 0%float 4) st_1_10 st_1_10 [neff_tree (nth 0 cross (hd_default cross))];
-   apply_effects (cfg_fixed 0%float 4) s1 s1 [neff_tree (nth 1 cross (hd_default cross))])
+  (do s1 <- apply_effects (cfg_fixed 0%float 4) st_1_10 st_1_10 (map neff_tree (firstn 1 cross));
+   apply_effects (cfg_fixed 0%float 4) s1 s1 (map neff_tree (skipn 1 cross)))
   = Ok [("(x )", 11%float); ("(y )", 21%float)].
 Proof. reflexivity. Qed.
